@@ -71,3 +71,14 @@ Definition trivia_follows (m r' : list Z) : Prop :=
 (* the classes of significant tokens (everything but comments) *)
 Definition significant_cls (k : Z) : Prop :=
   k = K_STRING \/ k = K_BYTE \/ k = K_NUMBER \/ k = K_IDENT \/ k = K_OP.
+
+(* ---------------------------------------------------------------- correspondence support (harness/c19num.py)
+   a case: (id, text, class of the item the implementation produces at offset 0, length of that token);
+   class -1 = unrecognised character at offset 0, -2 = whitespace at offset 0 (length 0 in both cases). *)
+Definition item_cls (it : item) : Z := match it with Tok k => k | Bad => -1 | Skip => -2 end.
+Definition first_case_ok (c : Z * list Z * Z * nat) : bool :=
+  let '(_, s, k, n) := c in
+  let '(it, len) := step s in
+  (item_cls it =? k) && Nat.eqb (match it with Tok _ => len | _ => O end) n.
+Definition first_bad_ids (cs : list (Z * list Z * Z * nat)) : list Z :=
+  map (fun c => let '(i, _, _, _) := c in i) (filter (fun c => negb (first_case_ok c)) cs).
